@@ -177,6 +177,14 @@ def r17a(ctx):
                 r = r.value
             roots.append(r.id if isinstance(r, ast.Name) else ast.unparse(r))
         attrs = [a.attr if isinstance(a, ast.Attribute) else None for a in xargs]
+        # ... and that expression must be the lowered / optimized one on every path: `.dask` always builds the graph of the
+        # lowered expression, whatever the collection holds
+        if len(set(roots)) == 1 and roots[0] != "self":
+            ds = [d for d in tdefs.reaching(roots[0], c) if d.value is not None]
+            lowered_everywhere = bool(ds) and all(any(k in ast.unparse(d.value) for k in ("optimize(", "lower_completely(")) or any(k in closure_text(model, fb.module, fb, d.value, depth=1) for k in ("optimize(", "lower_completely(")) for d in ds)
+        else:
+            lowered_everywhere = False
+        (ctx.ok if lowered_everywhere else ctx.bad)(f"_collection.FrameBase.to_legacy_dataframe:lowered#{i}", fb.module.loc(c), "name, meta and divisions come from the lowered / optimized expression on every path" if lowered_everywhere else f"on some path `{roots[0]}` is the collection as built: its graph (`.dask`) is generated from the lowered expression but name and divisions describe the un-lowered one - the legacy collection asks for keys its graph does not define")
         good = len(set(roots)) == 1 and attrs[:4] == ["dask", "_name", "_meta", "divisions"]
         (ctx.ok if good else ctx.bad)(f"_collection.FrameBase.to_legacy_dataframe:new_dd_object#{i}", fb.module.loc(c), f"all four from `{roots[0]}`" if good else f"new_dd_object({', '.join(ast.unparse(a) for a in c.args)}) mixes {sorted(set(roots))}: graph keys, name, meta and divisions must describe the same (optimized) expression")
     pp = model.method(fb, "__dask_postpersist__", own=True).node
